@@ -78,6 +78,7 @@ inductive PStmt where
   | expr (e : PExpr)                          -- expression statement (a call made for its effect)
   | pass
   | unsupported (what : String)               -- a construct outside the subset: interpreting it fails
+  | tryExcept (body handler : PBlock)         -- `try: <one statement> except Exception [as e]: handler` (see `execStmt`)
 inductive PBlock where
   | nil
   | cons (s : PStmt) (rest : PBlock)
@@ -360,6 +361,14 @@ def execStmt (M : Meths) (env : Env) : PStmt → Except PErr Flow
       | _ => do let _ ← eval M env e; .ok (.next env)
   | .pass => .ok (.next env)
   | .unsupported w => .error (.unsupported w)
+  | .tryExcept body handler =>
+      -- `except Exception`: any Python exception raised by the body is caught; errors of the interpreter itself (unsupported construct,
+      -- division by zero bookkeeping) are not.  The handler runs in the environment the `try` was entered with: the dumper only emits this
+      -- statement when the body is ONE assignment / expression statement, which has no effect on the environment when it raises.
+      match execBlock M env body with
+      | .ok f => .ok f
+      | .error (.exc _) => execBlock M env handler
+      | .error e => .error e
 def execBlock (M : Meths) (env : Env) : PBlock → Except PErr Flow
   | .nil => .ok (.next env)
   | .cons s rest => do
